@@ -53,9 +53,11 @@ type lexGram struct {
 	Opts   lexOpts
 	Decls  []string // %s / %x lines
 	NState int
-	Rules  []lexRule
-	Frags  []string
-	Tags   []string // features, for the distribution
+	// number of pattern-less token declarations in front of the rules
+	Predeclared int
+	Rules       []lexRule
+	Frags       []string
+	Tags        []string // features, for the distribution
 	// class of inputs the Go oracles must leave alone while a known defect is present
 	NonASCIIKwBytes bool
 }
@@ -88,6 +90,10 @@ func (g *lexGram) TM(forceRuleMode bool) string {
 	sb.WriteString("\n:: lexer\n\n")
 	for _, d := range g.Decls {
 		sb.WriteString(d + "\n")
+	}
+	for i := 0; i < g.Predeclared; i++ {
+		// tokens without a pattern: token ids and rule ids of the later lexemes differ
+		fmt.Fprintf(&sb, "reserved%d:\n", i)
 	}
 	forced := false
 	for _, r := range g.Rules {
@@ -152,6 +158,10 @@ func genLexGram(r *rand.Rand, name string, hashBuggy bool) *lexGram {
 	}
 	sc := func() string { return pick(r, scs) }
 
+	if r.Intn(3) == 0 {
+		g.Predeclared = 1 + r.Intn(3)
+		tag("predeclared-tokens")
+	}
 	// whitespace
 	switch r.Intn(5) {
 	case 0:
@@ -229,6 +239,9 @@ func genLexGram(r *rand.Rand, name string, hashBuggy bool) *lexGram {
 			kws = append(kws, kw)
 		}
 	}
+	if len(kws) == 0 {
+		withClass = false // a class rule without specialisations is rejected by the compiler
+	}
 	if withClass {
 		add(lexRule{sc: idSC, name: "id", pat: idPat, attr: "(class)", frags: idFrags})
 		tag("class-rule")
@@ -304,12 +317,17 @@ func genLexGram(r *rand.Rand, name string, hashBuggy bool) *lexGram {
 		add(lexRule{sc: sc(), name: "at", pat: `@`, code: "{ $$ = 1 }", frags: []string{"@"}})
 		tag("code-action")
 	}
+	// C1 controls: distinguishes the rune U+0080 from an invalid byte 0x80 (RuneError)
+	if !o.ScanBytes && r.Intn(4) == 0 {
+		add(lexRule{sc: sc(), name: "c1", pat: `[\x80-\x9f]+`, prio: "1", frags: []string{"\u0080", "\u009f\u0080", "\x80", "\x9f"}})
+		tag("c1-controls")
+	}
 	// any other character
 	if r.Intn(6) == 0 {
 		add(lexRule{sc: sc(), name: "other", pat: `[^\x00-\x7f]`, prio: "-2", frags: []string{"é", "中"}})
 	}
 	o.NonBacktracking = r.Intn(12) == 0
-	g.Frags = append(g.Frags, "é", "я", "中", "😀", "\xff", "\xc3", "\xed\xa0\x80", "\xc0\x80", "\xf4\x90\x80\x80", "\xe2\x82", "\xef\xbb\xbf", "$", "%", "\x00", "\x7f")
+	g.Frags = append(g.Frags, "é", "я", "中", "😀", "\xff", "\xc3", "\xed\xa0\x80", "\xc0\x80", "\xf4\x90\x80\x80", "\xe2\x82", "\xef\xbb\xbf", "$", "%", "\x00", "\x7f", "\x80", "\u0080")
 	return g
 }
 
